@@ -141,8 +141,12 @@ func (c *monC05) After(m *Machine, s *Step) *Violation {
 			expectAccept = false
 			m.flag("expired")
 		case age > dur-2*time.Second:
+			// too close to the deadline to call: if the request spent the token it is gone,
+			// otherwise it is still outstanding (and may be judged when it is clearly late)
 			st("C05").add("inconclusive", 1)
-			delete(table, owner)
+			if !usersEqual(s.Pre, s.Post) {
+				delete(table, owner)
+			}
 			return nil
 		}
 		if !pwPolicyOK(op.S) {
